@@ -54,6 +54,7 @@ class Env:
         self.intrinsic = []
         self._unstable = {}
         self._reach_cache = {}
+        self.casts = {}
 
     # ---- definitions that can change a local's value
     def unstable_positions(self, l):
@@ -178,12 +179,63 @@ class Env:
         return sb in self._reach(db, rb)
 
     # ---- terms
+    def _payload_source(self, p):
+        """for a place `(R as Continue|Ok|Some).0` where R is (the `?`/unwrap of) a Result/Option local that is assembled in
+        this body with exactly one `Ok(x)` / `Some(x)` assignment (all others Err / None / residuals): (operand x, position)."""
+        b = self.b
+        pr = p["p"]
+        if not (len(pr) >= 2 and isinstance(pr[0], dict) and pr[0].get("down") in ("Continue", "Ok", "Some") and isinstance(pr[1], dict) and pr[1].get("f") == 0):
+            return None
+        r = p["l"]
+        for _ in range(4):
+            alld = b.defs.get(r, [])
+            if len(alld) == 1 and alld[0][2] == "call":
+                t = alld[0][3]
+                short = (t["f"].get("fn") or "").rsplit("::", 1)[-1]
+                if short in ("branch", "unwrap", "expect") and t["args"]:
+                    q = op_place(t["args"][0])
+                    if q is None or q["p"]:
+                        return None
+                    r = q["l"]
+                    continue
+                return None
+            if len(alld) == 1 and alld[0][2] == "rv" and alld[0][3]["k"] == "use":
+                q = op_place(alld[0][3]["o"])
+                if q is None or q["p"]:
+                    return None
+                r = q["l"]
+                continue
+            break
+        alld = b.defs.get(r, [])
+        oks = []
+        for d in alld:
+            if d[2] == "call":
+                if "FromResidual" in (d[3]["f"].get("fn") or ""):
+                    continue
+                return None
+            if d[2] != "rv":
+                return None
+            rv = d[3]
+            if rv["k"] == "agg" and rv["kind"].get("a") == "adt" and rv["kind"].get("var") in ("Err", "None"):
+                continue
+            if rv["k"] == "agg" and rv["kind"].get("a") == "adt" and rv["kind"].get("var") in ("Ok", "Some") and len(rv["ops"]) == 1:
+                oks.append((rv["ops"][0], (d[0], d[1])))
+                continue
+            return None
+        return oks[0] if len(oks) == 1 and len(alld) >= 2 else None
+
     def place_term(self, p, pos, depth=6):
         """Term for a place read at position pos."""
         b = self.b
         root = p["l"]
         if not p["p"]:
             return self.local_term(root, pos, depth)
+        src = self._payload_source(p) if depth > 0 else None
+        if src is not None:
+            o, opos = src
+            q = op_place(o)
+            if q is not None:
+                return self.place_term({"l": q["l"], "p": list(q["p"]) + list(p["p"][2:])}, opos if len(p["p"]) == 2 else pos, max(depth, 4))
         # projections: (tmp.0) of a checked op
         pr = p["p"]
         if len(pr) == 1 and isinstance(pr[0], dict) and "f" in pr[0] and root not in b.names:
@@ -201,6 +253,18 @@ class Env:
                 ip = op_place(d[3]["o"])
                 if ip is not None:
                     return self.place_term({"l": ip["l"], "p": ip["p"] + ["*"]}, (d[0], d[1]), depth - 1)
+            # *(&v[i]) through the Index<usize> operator of Vec / slices / arrays: the element v[i] — every evaluation of the
+            # same element is the same term (as long as v is stable, which the reads record)
+            if d and d[2] == "call" and len(pr) == 1 and root not in b.names:
+                f = d[3]["f"]
+                full = f.get("full") or ""
+                m = re.match(r"^<(?:std::vec::Vec<(.+?)(?:, .*)?>|\[(.+?)(?:; \d+)?\]) as (?:std|core)::ops::Index<usize>>::index$", full)
+                if m and len(d[3]["args"]) == 2:
+                    dpos = (d[0], 10**6)
+                    recv = self.op_term(d[3]["args"][0], dpos, depth - 1)
+                    idx = self.op_term(d[3]["args"][1], dpos, depth - 1)
+                    ety = (m.group(1) or m.group(2) or "").strip()
+                    return Term("%s[%r]" % (strip_ref(repr(recv)), idx), 0, recv.reads + idx.reads, ety if ty_range(ety) else None)
         name = self.uname(root)
         reads = [(root, pos, field_path(p))]
         for e in pr:
@@ -258,6 +322,23 @@ class Env:
             if len(alld) == 1 and alld[0][2] == "rv" and alld[0][3]["k"] == "ref" and not alld[0][3].get("mut"):
                 d = alld[0]
                 return self.rv_term(d[3], (d[0], d[1]), depth - 1, l)
+        if l in b.names and not self.is_arg(l) and depth > 0 and ty_range(ty) is None and not ty.startswith("&mut"):
+            # a named local of aggregate type that is bound once by moving / copying another place (`let v = w;`,
+            # `let v = helper()?;` after inlining) denotes that place's value; its stability is checked through the reads
+            alld = b.defs.get(l, [])
+            if len(alld) == 1 and alld[0][2] == "rv" and alld[0][3]["k"] == "use":
+                q = op_place(alld[0][3]["o"])
+                if q is not None and (q["l"] in b.names or self.is_arg(q["l"]) or self._payload_source(q) is not None) and q["l"] != l \
+                        and getattr(self, "_alias_hops", 0) < 12:
+                    # alias hops do not consume rendering depth: the canonical name must not depend on how deep the
+                    # term was when the alias chain was entered
+                    self._alias_hops = getattr(self, "_alias_hops", 0) + 1
+                    try:
+                        t = self.place_term(q, (alld[0][0], alld[0][1]), max(depth, 4))
+                    finally:
+                        self._alias_hops -= 1
+                    if t.base is not None and not t.base.startswith("_"):
+                        return t
         if l in b.names or self.is_arg(l) or depth <= 0:
             return Term(self.uname(l), 0, [(l, pos)], ty)
         d = b.single_def(l)
@@ -292,7 +373,10 @@ class Env:
             if rs and rd and rs[0] >= rd[0] and rs[1] <= rd[1]:
                 # value-preserving widening: same term (keep the narrow type for range facts)
                 return Term(src.base, src.off, src.reads, src.ty or sty)
-            return Term("(%r as %s)" % (src, dty), 0, src.reads, dty)
+            me = Term("(%r as %s)" % (src, dty), 0, src.reads, dty)
+            # remembered so that the solver can identify the cast with its operand once the operand is known to fit
+            self.casts[me.base] = (src, dty)
+            return me
         if k == "bin":
             op = rv["op"]
             a = self.op_term(rv["a"], pos, depth)
@@ -481,6 +565,10 @@ class Env:
                 return []
             op = {"lt": "Lt", "le": "Le", "gt": "Gt", "ge": "Ge", "eq": "Eq", "ne": "Ne"}[short]
             return rel_facts(op, a, c, truth)
+        if short in ("is_negative", "is_positive") and len(args) == 1 and "num::" in nm:
+            a = self.op_term(args[0], dpos)
+            zero = Term(None, 0)
+            return rel_facts("Lt" if short == "is_negative" else "Gt", a, zero, truth)
         if short == "is_empty" and len(args) == 1:
             a = self.op_term(args[0], dpos)
             ln = Term("len(%s)" % strip_ref(repr(a)), 0, len_reads(a.reads), "usize")
@@ -657,6 +745,11 @@ class Env:
                         if len(src) == 1 and src[0] not in _seen:
                             facts.extend(self.dominating_edge_facts(src[0], _seen))
             elif ty_range(dty):
+                # discriminant of a Result/Option (or of its `?`) that is assembled in this body with a single Ok/Some
+                # assignment: on the success edge control came through that assignment (threading, as for boolean temporaries)
+                src = self._success_def_block(t, taken)
+                if src is not None and src not in _seen:
+                    facts.extend(self.dominating_edge_facts(src, _seen))
                 # integer match: on a listed edge the scrutinee equals the value
                 d = self.op_term(t["d"], gpos)
                 for v, x in t["tg"]:
@@ -671,6 +764,69 @@ class Env:
                         for fx in rel_facts("Ge", d, Term(None, vals[-1] + 1), True):
                             facts.append((fx, gpos))
         return facts
+
+    def _success_def_block(self, t, taken):
+        """block of the unique `Ok(..)`/`Some(..)` assignment behind a switch on discriminant(x) whose taken edge is the
+        success variant; None if the pattern does not apply."""
+        b = self.b
+        dp = op_place(t["d"])
+        if dp is None or dp["p"]:
+            return None
+        d = b.single_def(dp["l"])
+        if not (d and d[2] == "rv" and d[3]["k"] == "discr") or d[3]["p"]["p"]:
+            return None
+        x = d[3]["p"]["l"]
+        ty = b.lty(x)
+        val = [v for v, bb in t["tg"] if bb == taken]
+        if len(val) != 1:
+            return None
+        v = int(val[0])
+        if re.match(r"^(std|core)::ops::ControlFlow<", ty) or re.match(r"^(std|core)::result::Result<", ty):
+            if v != 0:
+                return None
+        elif re.match(r"^(std|core)::option::Option<", ty):
+            if v != 1:
+                return None
+        else:
+            return None
+        r = x
+        for _ in range(5):
+            alld = b.defs.get(r, [])
+            if len(alld) == 1 and alld[0][2] == "call":
+                tt = alld[0][3]
+                if (tt["f"].get("fn") or "").endswith("Try::branch") and tt["args"]:
+                    q = op_place(tt["args"][0])
+                    if q is None or q["p"]:
+                        return None
+                    r = q["l"]
+                    continue
+                return None
+            if len(alld) == 1 and alld[0][2] == "rv" and alld[0][3]["k"] == "use":
+                q = op_place(alld[0][3]["o"])
+                if q is None or q["p"]:
+                    return None
+                r = q["l"]
+                continue
+            break
+        alld = b.defs.get(r, [])
+        if len(alld) < 2:
+            return None
+        oks = []
+        for dd in alld:
+            if dd[2] == "call":
+                if "FromResidual" in (dd[3]["f"].get("fn") or ""):
+                    continue
+                return None
+            if dd[2] != "rv":
+                return None
+            rv = dd[3]
+            if rv["k"] == "agg" and rv["kind"].get("a") == "adt" and rv["kind"].get("var") in ("Err", "None"):
+                continue
+            if rv["k"] == "agg" and rv["kind"].get("a") == "adt" and rv["kind"].get("var") in ("Ok", "Some"):
+                oks.append(dd[0])
+                continue
+            return None
+        return oks[0] if len(oks) == 1 else None
 
     def def_facts(self, term_reads_locals):
         """a single-assignment named local equals its defining expression (whose intrinsic bounds then apply)."""
@@ -1485,4 +1641,15 @@ def knowledge(env, site_bb, site_idx, terms):
     for t in terms:
         if ok_term(t):
             S.add_range(t)
+    # a narrowing / sign-changing cast equals its operand once the operand is known to lie in the target type
+    for _ in range(2):
+        for cb, (src, dty) in list(env.casts.items()):
+            rd = ty_range(dty)
+            if rd is None or not ok_term(src):
+                continue
+            S.add_range(src)
+            if S.lower(src) >= rd[0] and S.upper(src) <= rd[1]:
+                ct = Term(cb, 0, src.reads, dty)
+                S.add(ct, src, 0)
+                S.add(src, ct, 0)
     return S, used, ok_term
